@@ -854,3 +854,11 @@ VARIANTS['C03'] += [
       [(MRQ, "            del atom.sidx\n            # a sidx box in front of the moof box means that the moof\n            # box has now moved\n            moof_modified = True\n",
         "            del atom.sidx\n            sidx_removed = True\n            moof_modified = sidx_removed\n")], None),
 ]
+
+VARIANTS['C06'] += [
+    V('static timeline runs for the reference duration (fix a0e4811 reverted)',
+      [(REPF, "            # a static manifest lists each stored segment exactly once\n            end = self.mediaDuration\n", "            end = ref_duration_tc\n")],
+      'R06.8', 'generateSegmentTimeline'),
+    V('neutral: own duration through a local',
+      [(REPF, "            # a static manifest lists each stored segment exactly once\n            end = self.mediaDuration\n", "            own_duration = self.mediaDuration\n            end = own_duration\n")], None),
+]
